@@ -13,17 +13,24 @@ EXTENDS BlobStore, TraceKit
 VARIABLES live, pend
 vars == <<live, pend>>
 tvars == <<vars, kitvars>>
-AllKeys == {1, 2, 3}
+AllKeys == 1..6
 Idle == [st |-> "idle"]
 
 TraceInit == live = [k \in AllKeys |-> None] /\ pend = <<>> /\ KitInit
 TraceReset == IsReset /\ live' = [k \in AllKeys |-> None] /\ pend' = [p \in 1..Ev.procs |-> Idle]
 TraceSkip == SkipStep /\ UNCHANGED vars
 
+(* A "burst" is a compact record of one process writing ds[1], reading, writing ds[2], reading, ... on a key that
+   no other process touches meanwhile (exclusive use is a precondition of the two call actions, so a script that
+   breaks it is not explained). With exclusive use linearizability leaves no choice: the i-th read returns ds[i]. *)
+Busy(k, p) == \E q \in DOMAIN pend : q # p /\ pend[q].st # "idle" /\ pend[q].k = k
+BurstOn(k, p) == \E q \in DOMAIN pend : q # p /\ pend[q].st # "idle" /\ pend[q].k = k /\ pend[q].op = "burst"
 TCall ==
   /\ IsEvent("call") /\ Strict
   /\ pend[Ev.p].st = "idle"
-  /\ pend' = [pend EXCEPT ![Ev.p] = [st |-> "called", op |-> Ev.op, k |-> Ev.k, c |-> Ev.c, d |-> Ev.d, m |-> Ev.m]]
+  /\ IF Ev.op = "burst" THEN ~Busy(Ev.k, Ev.p) /\ Len(Ev.ds) > 0 ELSE ~BurstOn(Ev.k, Ev.p)
+  /\ pend' = [pend EXCEPT ![Ev.p] = [st |-> "called", op |-> Ev.op, k |-> Ev.k, c |-> Ev.c, d |-> Ev.d, m |-> Ev.m,
+                                      ds |-> IF Ev.op = "burst" THEN Ev.ds ELSE <<>>]]
   /\ UNCHANGED live
 
 (* silent: the operation of process p takes effect *)
@@ -34,27 +41,31 @@ Lin(p) ==
      \/ /\ o.op = "write"
         /\ \E res \in {"ok", "err"} :
              /\ WriteStrict(live, FALSE, o.k, o.c, o.d, o.m, res, live')
-             /\ pend' = [pend EXCEPT ![p] = [st |-> "done", op |-> "write", res |-> res]]
+             /\ pend' = [pend EXCEPT ![p] = [st |-> "done", op |-> "write", k |-> o.k, res |-> res]]
      \/ /\ o.op = "delete"
         /\ \E res \in {"ok", "notfound", "err"} :
              /\ DeleteStrict(live, o.k, o.c, res, live')
-             /\ pend' = [pend EXCEPT ![p] = [st |-> "done", op |-> "delete", res |-> res]]
+             /\ pend' = [pend EXCEPT ![p] = [st |-> "done", op |-> "delete", k |-> o.k, res |-> res]]
      \/ /\ o.op = "sdelete"    \* Store-level delete: reports whether it removed something
         /\ \/ /\ live[o.k] # None /\ live' = [live EXCEPT ![o.k] = None]
-              /\ pend' = [pend EXCEPT ![p] = [st |-> "done", op |-> "delete", res |-> "removed"]]
+              /\ pend' = [pend EXCEPT ![p] = [st |-> "done", op |-> "delete", k |-> o.k, res |-> "removed"]]
            \/ /\ live[o.k] = None /\ live' = live
-              /\ pend' = [pend EXCEPT ![p] = [st |-> "done", op |-> "delete", res |-> "noop"]]
+              /\ pend' = [pend EXCEPT ![p] = [st |-> "done", op |-> "delete", k |-> o.k, res |-> "noop"]]
            \/ /\ live' = live
-              /\ pend' = [pend EXCEPT ![p] = [st |-> "done", op |-> "delete", res |-> "err"]]
+              /\ pend' = [pend EXCEPT ![p] = [st |-> "done", op |-> "delete", k |-> o.k, res |-> "err"]]
      \/ /\ o.op = "read"
         /\ pend' = [pend EXCEPT ![p] = [st |-> "done", op |-> "read", k |-> o.k, c |-> o.c, snap |-> live]]
         /\ UNCHANGED live
+     \/ /\ o.op = "burst"
+        /\ WriteStrict(live, FALSE, o.k, o.c, o.ds[Len(o.ds)], o.m, "ok", live')
+        /\ pend' = [pend EXCEPT ![p] = [st |-> "done", op |-> "burst", k |-> o.k, ds |-> o.ds]]
 
 TRet ==
   /\ IsEvent("ret") /\ Strict
   /\ pend[Ev.p].st = "done"
   /\ LET o == pend[Ev.p] IN
        IF o.op = "read" THEN ReadObsStrict(o.snap, o.k, o.c, Ev)
+       ELSE IF o.op = "burst" THEN Ev.res = "ok" /\ Ev.obs = o.ds
        ELSE Ev.res = o.res
   /\ pend' = [pend EXCEPT ![Ev.p] = Idle]
   /\ UNCHANGED live
